@@ -1732,7 +1732,10 @@ class Cap(object):
             live = set()
             for d in sorted(st.env, key=lambda x: str(x)):
                 v = st.env[d]
-                sig.append((d, v if v[0] != "i" else "i"))
+                if v[0] == "i" and v[1].is_const() and v[1].c < 0:
+                    sig.append((d, ("i", v[1].c)))      # a negative constant is a sentinel ("not found"), not a position: kept apart
+                else:
+                    sig.append((d, v if v[0] != "i" else "i"))
                 if v[0] == "p":
                     live.add(v[1])
             for kx in sorted(st.heap, key=lambda x: str(x)):
@@ -1751,7 +1754,10 @@ class Cap(object):
                 r = st.regions.get(rid)
                 if r is not None:
                     sig.append((rid, r.freed, r.cap, r.slen, r.nul))
-            sig.append(("ret", st.ret if st.ret is None or st.ret[0] != "i" else "i"))
+            if st.ret is not None and st.ret[0] == "i" and st.ret[1].is_const() and st.ret[1].c < 0:
+                sig.append(("ret", ("i", st.ret[1].c)))
+            else:
+                sig.append(("ret", st.ret if st.ret is None or st.ret[0] != "i" else "i"))
             key = repr(sig)
             if key not in groups:
                 groups[key] = []
@@ -1812,9 +1818,26 @@ class Cap(object):
                             base.cons.append(Lin.sym(x) - vals_[0] - lo_)
                             base.cons.append(vals_[0] + hi_ - Lin.sym(x))
                     merged_vars.append((x, getter))
+            # order relations between a merged variable and an integer local every merged state agrees on (a position found at or
+            # after `pos`: found >= pos whichever way it was found)
+            same_ints = []
+            for d in base.env:
+                v = base.env[d]
+                if v[0] == "i" and not v[1].is_const() and all(st.env.get(d) == v for st in g[1:]):
+                    same_ints.append(v[1])
+            if len(same_ints) <= 12:
+                for x1, g1 in merged_vars:
+                    if any(g1(st) is None for st in g):
+                        continue
+                    for w_ in same_ints:
+                        for sign in (1, -1):
+                            for c_ in (1, 0):
+                                if all(entails(st.cons, (g1(st) - w_).scale(sign) - c_) for st in g):
+                                    base.cons.append((Lin.sym(x1) - w_).scale(sign) - c_)
+                                    break
             # order relations between two merged variables that hold in every merged state (first <= last, i <= j + 1 ...)
             for i_ in range(len(merged_vars)):
-                for j_ in range(i_ + 1, min(len(merged_vars), i_ + 6)):
+                for j_ in range(i_ + 1, len(merged_vars) if len(merged_vars) <= 10 else min(len(merged_vars), i_ + 6)):
                     (x1, g1), (x2, g2) = merged_vars[i_], merged_vars[j_]
                     if any(g1(st) is None or g2(st) is None for st in g):
                         continue
